@@ -93,7 +93,7 @@ def model_semantics(res):
         if m == "SKIP":
             continue
         src, tgt, hoisted, text = m.split("|")
-        if src != tgt:
+        if src != tgt and tgt != "O":   # (object / array literals are opaque to jeval: outside C03_compile_correct's fragment)
             found += 1
             if found <= 3:
                 res.violation("model self-check: jeval of the emitted tree differs from eval of the source for {{ %s }}: %s vs %s" % (
